@@ -136,6 +136,14 @@ def export_facts(tag, repo=None, log=None):
             head = fh.read(400)
         if nonce not in head:
             raise BuildError("stale fact file for %s: nonce mismatch" % tag)
+        # keep the metadata of exactly this tree next to the facts (used by the compile-fail witnesses)
+        dp = os.path.join(tdir, "debug", "deps")
+        rm = [os.path.join(dp, f) for f in os.listdir(dp) if f.startswith("libflacenc-") and f.endswith(".rmeta")]
+        if not rm:
+            raise BuildError("no flacenc rmeta produced for %s" % tag)
+        rm.sort(key=os.path.getmtime)
+        os.makedirs(out[:-5] + ".meta", exist_ok=True)
+        shutil.copyfile(rm[-1], os.path.join(out[:-5] + ".meta", "libflacenc.rmeta"))
         os.rename(out + ".new", out)
         # prune old fact files of this tag (keep the 6 most recent)
         olds = sorted([f for f in os.listdir(CACHE) if f.startswith("facts-%s-" % tag) and f.endswith(".json")],
@@ -145,6 +153,7 @@ def export_facts(tag, repo=None, log=None):
                 os.remove(os.path.join(CACHE, f))
             except OSError:
                 pass
+            shutil.rmtree(os.path.join(CACHE, f[:-5] + ".meta"), ignore_errors=True)
     return out
 
 
@@ -153,14 +162,15 @@ class BuildError(Exception):
 
 
 def rmeta_path(tag, repo=None):
+    """(rmeta of the current tree for `tag`, dependency dir)."""
     repo = repo or REPO
+    facts = export_facts(tag, repo)
     rkey = hashlib.sha256(os.path.abspath(repo).encode()).hexdigest()[:8]
     dp = os.path.join(CACHE, "target-%s-%s" % (tag, rkey), "debug", "deps")
-    c = [os.path.join(dp, f) for f in os.listdir(dp) if f.startswith("libflacenc-") and f.endswith(".rmeta")]
-    if not c:
-        raise BuildError("no flacenc rmeta in %s" % dp)
-    c.sort(key=os.path.getmtime)
-    return c[-1], dp
+    rm = os.path.join(facts[:-5] + ".meta", "libflacenc.rmeta")
+    if not os.path.exists(rm):
+        raise BuildError("no flacenc rmeta next to %s" % facts)
+    return rm, dp
 
 
 # ----------------------------------------------------------------------------- known findings
